@@ -164,6 +164,16 @@ def _real_c09(case):
             if not np.max(np.abs(sh - 3.25)) <= 1e-9:
                 bad.append(f"shifting the ground temperature by 3.25 K shifts the results by {sh.min()}..{sh.max()}")
             g.bhe.soil.ugt -= 3.25
+            if n1 * n2 <= 12:
+                # the g-function the object holds is replaced while the height stays the same (compute_g_functions: a three-height table):
+                # the next simulation superposes the NEW g-function
+                g.compute_g_functions()
+                g.simulate(TimestepType.HYBRID)
+                ref2 = reference(g, q, tt)
+                stats["steps"] += len(ref2)
+                err2 = np.max(np.abs(np.array(g.hp_eft) - ref2) / np.maximum(1.0, np.abs(ref2)))
+                if not err2 <= 1e-9:
+                    bad.append(f"HYBRID after compute_g_functions() at an unchanged height: simulated EFT deviates from the superposition of the g-function the object now holds by {err2:.3g} (relative)")
             if hourly:
                 g.simulate(TimestepType.HOURLY)
                 hp = np.array(g.hp_eft)
